@@ -51,7 +51,8 @@ TouchOnly(c) == LET E == UNION {Segs(EdgeRecs(val[n])) : n \in Bases(c)}
 \* `opaque`: operands passed with their original float coordinates (the repository's fixtures):
 \* no image in the integer domain, so only the geometry-free laws C03 and C12 apply
 OpaqueCall(c) == meta[c.x].opaque \/ meta[c.y].opaque
-BigCall(c) == meta[c.x].big \/ meta[c.y].big \/ OpaqueCall(c)
+\* (`wit`: small coordinates on a fine grid, crossing points not representable - no arrangement either)
+BigCall(c) == meta[c.x].big \/ meta[c.y].big \/ OpaqueCall(c) \/ meta[c.x].wit > 0 \/ meta[c.y].wit > 0
 ClaimedTouch(c) == meta[c.x].touch /\ meta[c.y].touch
 ExactCall(c) == IF BigCall(c) THEN ClaimedTouch(c) ELSE ((\A n \in Bases(c) : Octi(val[n])) \/ TouchOnly(c))
 Depth1(c) == meta[c.x].expr[1] = "b" /\ meta[c.y].expr[1] = "b"
@@ -133,6 +134,41 @@ C01_TouchOnlyObvious(c) ==
     CASE c.op = "int" -> IsEmptyMp(c.mp)
       [] c.op = "diff" -> CanonMp(c.mp, TRUE) = CanonMp(val[c.x], TRUE)
       [] OTHER -> CanonMp(c.mp, TRUE) = CanonMp(val[c.x] \o val[c.y], TRUE)
+
+\* C01 by WITNESS POINTS, for operands in general position whose crossing points are not
+\* representable (small integer coordinates, presented on a 2^-10 grid: meta.wit = the grid step
+\* 1024 in recorded units).  The statement of C01 itself is about points "not within rounding
+\* distance of an input edge": the witnesses are the centres of the unit cells, w = (i + 1/2, j + 1/2).
+\* In doubled original units a witness has odd coordinates and an input edge even ones, so the
+\* orientation determinant of (edge, w) is an integer: if it is not 0, w is at least 1/(2|e|) >= 0.05
+\* away from the edge's line - 50 times the recorder's grid.  Witnesses on the line of an input edge are
+\* skipped.  Membership is decided by exact integer ray casting (even-odd per ring, a polygon is its
+\* exterior minus its holes, the multipolygon the union of its polygons).
+WitnessCall(c) == meta[c.x].wit > 0 /\ meta[c.y].wit = meta[c.x].wit /\ meta[c.x].expr[1] = "b" /\ meta[c.y].expr[1] = "b"
+RayHits(ring, w) ==        \* number of edges of the ring crossed by the ray from w towards +x (half-open rule)
+  Cardinality({k \in 1..(Len(ring) - 1) :
+     LET p == ring[k]  q == ring[k + 1]
+         up == p[2] <= w[2] /\ q[2] > w[2]
+         dn == q[2] <= w[2] /\ p[2] > w[2]
+     IN (up /\ Orient(XY(p), XY(q), w) > 0) \/ (dn /\ Orient(XY(p), XY(q), w) < 0)})
+InRing(ring, w) == RayHits(ring, w) % 2 = 1
+InPoly(poly, w) == Len(poly) >= 1 /\ InRing(poly[1], w) /\ \A j \in 2..Len(poly) : ~InRing(poly[j], w)
+InMpAt(mp, w) == \E i \in 1..Len(mp) : InPoly(mp[i], w)
+\* operands are read by the even-odd rule over all their rings (the same for valid operands)
+RingIdx(mp) == UNION {{<<i, j>> : j \in 1..Len(mp[i])} : i \in 1..Len(mp)}
+InOperand(mp, w) == (Cardinality({p \in RingIdx(mp) : InRing(mp[p[1]][p[2]], w)}) % 2) = 1
+Min2(S) == CHOOSE x \in S : \A y \in S : x <= y
+Max2(S) == CHOOSE x \in S : \A y \in S : x >= y
+C01_Witness(c) ==
+  LET g == meta[c.x].wit
+      A == val[c.x]  B == val[c.y]
+      Ein == Segs(EdgeRecs(A)) \cup Segs(EdgeRecs(B))
+      pts == UNION {{e[1], e[2]} : e \in Ein}
+      lo == (Min2({p[1] : p \in pts} \cup {p[2] : p \in pts}) \div g) - 1
+      hi == (Max2({p[1] : p \in pts} \cup {p[2] : p \in pts}) \div g) + 1
+      W == {<<(2*i + 1) * (g \div 2), (2*j + 1) * (g \div 2)>> : i \in lo..hi, j \in lo..hi}
+      clear(w) == \A e \in Ein : Orient(e[1], e[2], w) # 0
+  IN Ein = {} \/ \A w \in W : clear(w) => (InMpAt(c.mp, w) = InOp(c.op, InOperand(A, w), InOperand(B, w)))
 
 \* C01 for operands given with their original float coordinates that only touch: the generator
 \* states the obvious result; coordinates are compared as bit strings (no arithmetic), rings up to
@@ -245,7 +281,8 @@ Violated(c) ==
       geo == wantGeo /\ decid
       extra == IF c04 THEN {} ELSE resE
       und == IF wantGeo /\ ~decid THEN {"UNDECIDED"} ELSE {}
-      v01 == IF "C01" \in Laws /\ ((geo /\ Depth1(c) /\ ~RegionOK(c, extra)) \/ (ok /\ un /\ big /\ ~OpaqueCall(c) /\ ~C01_TouchOnlyObvious(c)) \/ (ok /\ un /\ OpaqueCall(c) /\ ~C01_OpaqueObvious(c))) THEN {"C01"} ELSE {}
+      v01 == IF "C01" \in Laws /\ ((geo /\ Depth1(c) /\ ~RegionOK(c, extra)) \/ (ok /\ un /\ big /\ ~OpaqueCall(c) /\ ~C01_TouchOnlyObvious(c)) \/ (ok /\ un /\ OpaqueCall(c) /\ ~C01_OpaqueObvious(c))
+                                      \/ (ok /\ un /\ WitnessCall(c) /\ ~C01_Witness(c))) THEN {"C01"} ELSE {}
       v11 == IF "C11" \in Laws /\ geo /\ ~Depth1(c) /\ ~RegionOK(c, extra) THEN {"C11"} ELSE {}
       v02 == IF "C02" \in Laws /\ geo /\ ~C02_PolygonSetValid(c) THEN {"C02"} ELSE {}
       v06 == IF "C06" \in Laws /\ ok /\ un /\ ~OpaqueCall(c) /\ ~((big \/ (C06_Self(c) /\ C06_Empty(c))) /\ C06_DisjointBoxes(c) /\ pair(C06_Commutes)) THEN {"C06"} ELSE {}
@@ -280,7 +317,8 @@ Call(c) ==
   /\ val' = Ext(val, c.res, c.mp)
   /\ meta' = Ext(meta, c.res, [rel |-> "result", of |-> "", frame |-> meta[c.x].frame, expr |-> ExprOf(c),
                                 big |-> meta[c.x].big \/ meta[c.y].big, touch |-> FALSE,
-                                opaque |-> meta[c.x].opaque \/ meta[c.y].opaque, nedges |-> 0])
+                                opaque |-> meta[c.x].opaque \/ meta[c.y].opaque, nedges |-> 0,
+                                wit |-> IF meta[c.x].wit > meta[c.y].wit THEN meta[c.x].wit ELSE meta[c.y].wit])
   /\ log' = Append(log, c)
 
 BInit == val = <<>> /\ meta = <<>> /\ log = <<>> /\ bad = {}
